@@ -323,4 +323,9 @@ def r6(F, R):
     c10.r1(F, R)
 
 
-RULES = [("R1", r1, None), ("R2", r2, None), ("R3", r3, None), ("R4", r4, None), ("R5", r5, None), ("R6", r6, None)]
+def r7_setters(F, R):
+    """`before(hook)` / `after(hook)` install the hook in the like-named slot (runner) / forward to the like-named runner method (Cucumber): a before hook registered as the after hook changes when user code runs."""
+    roles.check_all_builder_setters(F, R, only=r"^(before|after)$", floor=4)
+
+
+RULES = [("R1", r1, None), ("R2", r2, None), ("R3", r3, None), ("R4", r4, None), ("R5", r5, None), ("R6", r6, None), ("R7", r7_setters, None)]
